@@ -396,7 +396,14 @@ def run(chk):
             adds = [c for c in walk_local(loop) if isinstance(c, ast.Call) and norm(c.func) == f"{sname}.add"]
             rems = [c for c in walk_local(loop) if isinstance(c, ast.Call) and norm(c.func) in (f"{sname}.remove", f"{sname}.discard")]
             detail = dict(built_in_loop=[norm(x)[:80] for x in inside], built_outside=[norm(x)[:80] for x in outside])
-            fresh = len(inside) == 1 and not outside and norm(inside[0].value).startswith("set(") and inside[0].lineno < calls[0].lineno
+            # (a copy, made inside the loop, of a set built once outside and never touched is as fresh as `set(...)` made inside)
+            made = norm(expand_locals(inside[0].value, bp, stop=(norm(loop.target), bp.args.args[1].arg))) if len(inside) == 1 else ""
+            src_names = {n_.id for n_ in ast.walk(inside[0].value) if isinstance(n_, ast.Name)} if len(inside) == 1 else set()
+            touched = [c_ for c_ in walk_local(bp) if isinstance(c_, ast.Call) and isinstance(c_.func, ast.Attribute) and isinstance(c_.func.value, ast.Name)
+                       and c_.func.value.id in src_names - {sname} and c_.func.attr in ("add", "remove", "discard", "pop", "clear", "update",
+                                                                                           "difference_update", "intersection_update", "symmetric_difference_update")]
+            fresh = len(inside) == 1 and not outside and made.startswith("set(") and inside[0].lineno < calls[0].lineno and not touched \
+                and (norm(inside[0].value).startswith("set(") or norm(inside[0].value).endswith(".copy()"))
             ok_set = fresh and len(adds) == 1 and norm(adds[0].args[0]) == bp.args.args[0].arg and len(rems) == 1 and norm(rems[0].args[0]) == a0 \
                 and all(x.lineno < calls[0].lineno for x in adds + rems)
     # ... of the ids *as given*: the alternative winner handed to the tree builder is the element's own id, the other members of
